@@ -268,8 +268,13 @@ func ToDate(ctx *expr.Context, input system.Collection, args ...expr.Expression)
 	case system.Date:
 		return system.Collection{value}, nil
 	case system.DateTime:
-		dt := value.String()
-		result := system.MustParseDate(dt[:10])
+		// The date part of the DateTime: everything before the 'T'. A DateTime of year
+		// or month precision ("2020T", "2020-01T") has fewer than ten characters there.
+		date, _, _ := strings.Cut(value.String(), "T")
+		result, err := system.ParseDate(date)
+		if err != nil {
+			return system.Collection{}, nil
+		}
 		return system.Collection{result}, nil
 	case system.String:
 		result, err := system.ParseDate(string(value))
